@@ -403,7 +403,10 @@ fn run_part(run: &mut Run) {
             let m = M { depth_alphabet: alphabet(tier) };
             let inits = vec![Init { over: false, oob: false }, Init { over: true, oob: false }, Init { over: false, oob: true }, Init { over: true, oob: true }];
             run.note(format!("{} actions", m.depth_alphabet.len()));
-            run.explore("draw-histories", "all sequences of set_allow_*/draw_iter/fill_solid/fill_contiguous/clear/set_pixel actions over in-range, edge, out-of-range and repeated points from the four flag combinations; a panicking action leads to the partially drawn state", &m, inits, tier.pick(3, 4));
+            let depth = tier.pick(3, 4);
+            let stats = run.explore("draw-histories", "all sequences of set_allow_*/draw_iter/fill_solid/fill_contiguous/clear/set_pixel actions over in-range, edge, out-of-range and repeated points from the four flag combinations; a panicking action leads to the partially drawn state", &m, inits.clone(), depth);
+            // second engine over the same transition function: must see the same state space
+            run.cross_check_stateright("draw-histories", std::sync::Arc::new(m), inits, depth, &stats);
         }
         "patterns" => {
             run.sweep_vec("patterns", "all patterns of up to 3x2 cells over each colour type's character set (larger sets: 2x2 / 3x1), plus the empty and a full 64x64 pattern", || pattern_cases(tier), check_pat);
